@@ -25,7 +25,7 @@ import (
 
 // C07CompassABI: constructor and the four relayed functions of the compass
 // contract (x/evm/keeper/testdata/sample-abi.json, other entries removed).
-const C07CompassABI = `[{"inputs":[{"name":"_compass_id","type":"bytes32"},{"name":"_event_id","type":"uint256"},{"name":"_gravity_nonce","type":"uint256"},{"components":[{"name":"validators","type":"address[]"},{"name":"powers","type":"uint256[]"},{"name":"valset_id","type":"uint256"}],"name":"valset","type":"tuple"},{"name":"fee_manager","type":"address"}],"stateMutability":"nonpayable","type":"constructor"},{"inputs":[{"components":[{"components":[{"name":"validators","type":"address[]"},{"name":"powers","type":"uint256[]"},{"name":"valset_id","type":"uint256"}],"name":"valset","type":"tuple"},{"components":[{"name":"v","type":"uint256"},{"name":"r","type":"uint256"},{"name":"s","type":"uint256"}],"name":"signatures","type":"tuple[]"}],"name":"consensus","type":"tuple"},{"components":[{"name":"validators","type":"address[]"},{"name":"powers","type":"uint256[]"},{"name":"valset_id","type":"uint256"}],"name":"new_valset","type":"tuple"},{"name":"relayer","type":"address"},{"name":"gas_estimate","type":"uint256"}],"name":"update_valset","outputs":[],"stateMutability":"nonpayable","type":"function"},{"inputs":[{"components":[{"components":[{"name":"validators","type":"address[]"},{"name":"powers","type":"uint256[]"},{"name":"valset_id","type":"uint256"}],"name":"valset","type":"tuple"},{"components":[{"name":"v","type":"uint256"},{"name":"r","type":"uint256"},{"name":"s","type":"uint256"}],"name":"signatures","type":"tuple[]"}],"name":"consensus","type":"tuple"},{"components":[{"name":"logic_contract_address","type":"address"},{"name":"payload","type":"bytes"}],"name":"args","type":"tuple"},{"components":[{"name":"relayer_fee","type":"uint256"},{"name":"community_fee","type":"uint256"},{"name":"security_fee","type":"uint256"},{"name":"fee_payer_paloma_address","type":"bytes32"}],"name":"fee_args","type":"tuple"},{"name":"message_id","type":"uint256"},{"name":"deadline","type":"uint256"},{"name":"relayer","type":"address"}],"name":"submit_logic_call","outputs":[],"stateMutability":"nonpayable","type":"function"},{"inputs":[{"components":[{"components":[{"name":"validators","type":"address[]"},{"name":"powers","type":"uint256[]"},{"name":"valset_id","type":"uint256"}],"name":"valset","type":"tuple"},{"components":[{"name":"v","type":"uint256"},{"name":"r","type":"uint256"},{"name":"s","type":"uint256"}],"name":"signatures","type":"tuple[]"}],"name":"consensus","type":"tuple"},{"components":[{"name":"logic_contract_address","type":"address"},{"name":"payload","type":"bytes"}],"name":"update_compass_args","type":"tuple[]"},{"name":"deadline","type":"uint256"},{"name":"gas_estimate","type":"uint256"},{"name":"relayer","type":"address"}],"name":"compass_update_batch","outputs":[],"stateMutability":"nonpayable","type":"function"},{"inputs":[{"components":[{"components":[{"name":"validators","type":"address[]"},{"name":"powers","type":"uint256[]"},{"name":"valset_id","type":"uint256"}],"name":"valset","type":"tuple"},{"components":[{"name":"v","type":"uint256"},{"name":"r","type":"uint256"},{"name":"s","type":"uint256"}],"name":"signatures","type":"tuple[]"}],"name":"consensus","type":"tuple"},{"name":"_deployer","type":"address"},{"name":"_bytecode","type":"bytes"},{"components":[{"name":"relayer_fee","type":"uint256"},{"name":"community_fee","type":"uint256"},{"name":"security_fee","type":"uint256"},{"name":"fee_payer_paloma_address","type":"bytes32"}],"name":"fee_args","type":"tuple"},{"name":"message_id","type":"uint256"},{"name":"deadline","type":"uint256"},{"name":"relayer","type":"address"}],"name":"deploy_contract","outputs":[],"stateMutability":"nonpayable","type":"function"}]`
+const C07CompassABI = models.CompassABI
 
 var c07Vals = []string{"0x7777777777777777777777777777777777777777", "0x8888888888888888888888888888888888888888", "0x9999999999999999999999999999999999999999"}
 
